@@ -154,26 +154,40 @@ pub fn explore(ctx: &Ctx) {
                     let mut s = a;
                     while s <= b {
                         let e = (s + Days::new(365 * 25)).min(b);
-                        jobs.push((Site::new(lat, lon, 0.0, gmt), m, s, e, None));
+                        jobs.push((Site::new(lat, lon, 0.0, gmt), Params::new(m), s, e, None));
                         s = e.succ_opt().unwrap();
                     }
                 }
                 // the same with weather supplied by the caller (the fallback must pass it on): one year
                 if m == ms[0] {
-                    jobs.push((Site::new(lat, lon, 0.0, gmt), m, ymd(2023, 7, 1), ymd(2024, 6, 30), Some((1040.0, -25.0))));
-                    jobs.push((Site::new(lat, lon, 0.0, gmt), m, ymd(2023, 7, 1), ymd(2024, 6, 30), Some((880.0, 31.0))));
+                    jobs.push((Site::new(lat, lon, 0.0, gmt), Params::new(m), ymd(2023, 7, 1), ymd(2024, 6, 30), Some((1040.0, -25.0))));
+                    jobs.push((Site::new(lat, lon, 0.0, gmt), Params::new(m), ymd(2023, 7, 1), ymd(2024, 6, 30), Some((880.0, 31.0))));
                 }
             }
         }
     }
+    // custom twilight angles: none of the named methods has an Isha angle larger than its Fajr angle,
+    // or fractional angles - a "good day" must still be one on which BOTH exist
+    let custom: Vec<(f64, f64)> = if quick { vec![(13.7, 17.2), (18.0, 12.0)] } else { vec![(13.7, 17.2), (12.0, 18.0), (9.0, 21.0), (18.0, 12.0), (16.3, 16.3), (21.0, 9.0)] };
+    let lats_c: Vec<f64> = if quick { vec![56.43, -53.16, 50.0, 61.7] } else { vec![47.3, 56.43, -53.16, 50.0, -58.2, 61.7, 64.0] };
+    for &(fa, ia) in &custom {
+        for &lat in &lats_c {
+            let mut pm = Params::new(Method::Mwl);
+            pm.angles.insert(Prayer::Fajr, fa);
+            pm.angles.insert(Prayer::Isha, ia);
+            let (a, b) = if quick { (ymd(2023, 1, 1), ymd(2024, 12, 31)) } else { (ymd(2020, 1, 1), ymd(2029, 12, 31)) };
+            jobs.push((Site::new(lat, zs[0].0, 0.0, zs[0].1), pm, a, b, None));
+        }
+    }
+    ctx.alphabet("custom_angles_fajr_isha", json!({"angles": custom, "lats": lats_c}));
     ctx.alphabet("lats", json!(lats));
     ctx.alphabet("zones", json!(zs));
     ctx.alphabet("methods", json!(methods.iter().map(|m| format!("{:?}", m)).collect::<Vec<_>>()));
     ctx.alphabet("date_ranges", json!(ranges));
     ctx.alphabet("policies", json!(["NearestGoodDayFajrIshaInvalid", "NearestGoodDayAllPrayersAlways"]));
     ctx.alphabet("weather", json!(["absent (all ranges)", [1040.0, -25.0], [880.0, 31.0]]));
-    par_jobs(ctx, &jobs, |(site, m, a, b, w), l| {
-        let pm = Params::new(*m);
+    par_jobs(ctx, &jobs, |(site, pm, a, b, w), l| {
+        let pm = pm.clone();
         let conv = Conv::build(&pm, *site, *a - Days::new(PAD), *b + Days::new(PAD), *w, l);
         let mut d = *a;
         while d <= *b {
